@@ -271,7 +271,7 @@ func (cmd *mainCmd) Run(args []string) error {
 
 	logOut := io.Discard
 	if opts.Verbose {
-		logOut = cmd.Stdout
+		logOut = cmd.Stderr
 	}
 	log := log.New(logOut, "", 0)
 
